@@ -313,6 +313,7 @@ fn dispatch_c11(cmd: &str, args: &[String], tier: &String, seed: u64, out: &Stri
             props::c11::run(&tier, seed, &out);
             0
         }
+        "c11-search-one" => props::c11::replay_search_one(&arg(&args, "--fen").unwrap(), arg(&args, "--depth").and_then(|c| c.parse().ok()).unwrap_or(3), arg(&args, "--cap").and_then(|c| c.parse().ok()).unwrap_or(6000)),
         "c11-one" => props::c11::replay_one(&arg(&args, "--fen").unwrap(), seed),
         _ => return None,
     })
